@@ -5,8 +5,11 @@
 cd /verif || exit 2
 W=${TMPDIR:-/var/tmp}/pgverif-seeded-wt.$$
 E=${TMPDIR:-/var/tmp}/pgverif-seeded-ev.$$
+S=${TMPDIR:-/var/tmp}/pgverif-seeded-snap.$$
 git -C /repo worktree add -q --detach "$W" HEAD || exit 2
-mkdir -p "$E"
+mkdir -p "$E" "$S"
+# the checks run from a SNAPSHOT of the machinery (fragments, tools, known findings), so that work on /verif can go on meanwhile
+rsync -a --exclude .git --exclude evidence --exclude replay --exclude seeded /verif/ "$S"/
 ids="$*"; [ -z "$ids" ] && ids=$(ls seeded | grep -v RESULTS | sort)
 : > seeded/RESULTS.txt.new
 for id in $ids; do
@@ -16,7 +19,7 @@ for id in $ids; do
   git -C "$W" checkout -q -- . 
   if ! git -C "$W" apply /verif/$d/patch.diff 2>/dev/null; then echo "$id apply-failed (the stored patch no longer applies to /repo HEAD)" | tee -a seeded/RESULTS.txt.new; continue; fi
   for p in $props; do
-    PGVERIF_REPO="$W" PGVERIF_EVIDENCE_DIR="$E" ./check $p > "$E/$id.log" 2>&1; rc=$?
+    PGVERIF_REPO="$W" PGVERIF_EVIDENCE_DIR="$E" "$S"/check $p > "$E/$id.log" 2>&1; rc=$?
     line=$(grep -m1 "VIOLATION\|UNDECIDED" "$E/$id.log" | cut -c1-220)
     echo "$id check=$p rc=$rc $line" | tee -a seeded/RESULTS.txt.new
   done
@@ -29,4 +32,4 @@ else
   mv seeded/RESULTS.txt.new seeded/RESULTS.txt
 fi
 git -C /repo worktree remove --force "$W"; git -C /repo worktree prune
-rm -rf "$E"
+rm -rf "$E" "$S"
